@@ -80,8 +80,9 @@ impl EnumCase {
 pub fn gen_case(rng: &mut Rng, idx: usize, max_vars: usize) -> EnumCase {
     loop {
         let n = 1 + rng.below(max_vars);
-        let shape = rng.below(10);
+        let shape = rng.below(14);
         let mut vars = vec![];
+        let mut perm: Vec<i64> = vec![];
         for i in 0..n {
             let d = match shape {
                 0 | 1 => None,                                  // all implicit (contiguous)
@@ -89,6 +90,25 @@ pub fn gen_case(rng: &mut Rng, idx: usize, max_vars: usize) -> EnumCase {
                 3 => {
                     // contiguous prefix, then a break, then implicit
                     if i == n / 2 + 1 { Some(rng.range(-9, 30)) } else { None }
+                }
+                10 | 11 => {
+                    // a non-identity arrangement of exactly 0..n (every value in range, positions scrambled)
+                    if i == 0 {
+                        perm = (0..n as i64).collect();
+                        for k in (1..n).rev() {
+                            let j = rng.below(k + 1);
+                            perm.swap(k, j);
+                        }
+                    }
+                    if rng.chance(2, 3) || i == 0 { Some(perm[i]) } else { None }
+                }
+                12 => {
+                    // strictly increasing, starts negative, ends exactly at n-1
+                    if i + 1 == n { Some(n as i64 - 1) } else if i == 0 { Some(-(rng.range(1, 9))) } else if i == 1 { Some(0) } else { None }
+                }
+                13 => {
+                    // contiguous but shifted by one, or with one swapped neighbour pair
+                    if i == 0 { Some(1) } else { None }
                 }
                 4 => {
                     // near the i32 boundaries
